@@ -417,13 +417,14 @@ func (r *RdbReader) ReadZipmapItem(buf *util.SliceBuffer, readFree bool) []byte 
 }
 
 func readZipmapItemLength(buf *util.SliceBuffer, readFree bool) (int, int) {
+	// zipmap.c: <len> is one byte for 0..253; 254 (ZIPMAP_BIGLEN) is followed by the
+	// length as a 4 byte unsigned integer (little endian); 255 (ZIPMAP_END) ends the map.
+	// A value's <len> is followed by its <free> byte, a field's is not.
 	b := buf.ReadByte()
+	length := int(b)
 	switch b {
-	case 253:
-		s := buf.Slice(5)
-		return int(binary.BigEndian.Uint32(s)), int(s[4])
 	case 254:
-		panic(errors.Errorf("rdb: invalid zipmap item length"))
+		length = int(binary.LittleEndian.Uint32(buf.Slice(4)))
 	case 255:
 		return -1, 0
 	}
@@ -431,7 +432,7 @@ func readZipmapItemLength(buf *util.SliceBuffer, readFree bool) (int, int) {
 	if readFree {
 		free = buf.ReadByte()
 	}
-	return int(b), int(free)
+	return length, int(free)
 }
 
 func (r *RdbReader) CountZipmapItemsP(buf *util.SliceBuffer) int {
@@ -439,7 +440,10 @@ func (r *RdbReader) CountZipmapItemsP(buf *util.SliceBuffer) int {
 	return i
 }
 
+// CountZipmapItems counts the items (fields and values, two per pair) from the
+// buffer's position up to the end marker and returns to that position.
 func (r *RdbReader) CountZipmapItems(buf *util.SliceBuffer) int {
+	start := buf.Seek(0, 1)
 	n := 0
 	for {
 		strLen, free := readZipmapItemLength(buf, n%2 != 0)
@@ -449,7 +453,7 @@ func (r *RdbReader) CountZipmapItems(buf *util.SliceBuffer) int {
 		buf.Seek(int64(strLen)+int64(free), 1)
 		n++
 	}
-	buf.Seek(0, 0)
+	buf.Seek(start, 0)
 	return n
 }
 
